@@ -624,8 +624,10 @@ type collector struct {
 	Samples  []string         `json:"samples"`
 	Vios     []*vioRec        `json:"vios"`
 
-	seen  map[uint64]struct{}
-	bysig map[string]*vioRec
+	seen         map[uint64]struct{}
+	bysig        map[string]*vioRec
+	classSamples int
+	seqSamples   int
 }
 
 func newCollector() *collector {
@@ -635,8 +637,10 @@ func newCollector() *collector {
 func (c *collector) visit(h uint64, s string) {
 	if _, ok := c.seen[h]; !ok {
 		c.seen[h] = struct{}{}
-		if len(c.Samples) < 2 {
-			c.Samples = append(c.Samples, s)
+		// sample: a class in which iterators are parked on a removed entry while live entries exist
+		if c.classSamples < 1 && strings.Contains(s, "D") && strings.Contains(s, "L") && (strings.Contains(s, "Next") || strings.Contains(s, "Close")) {
+			c.classSamples++
+			c.Samples = append(c.Samples, "transition class reached (list points L=live D=removed+pinned E=end, each with the number of iterators on it | operation@point): "+s)
 		}
 	}
 }
@@ -735,6 +739,10 @@ func runNode(c *collector, cfg enumCfg, ops []op, count bool) bool {
 	}
 	if count {
 		c.Counters[cfg.counter]++
+		if clean && !cfg.nohook && c.seqSamples < 1 && len(ops) == cfg.depth && ops[len(ops)-1].K == opNext && ops[len(ops)-2].K == opRemove {
+			c.seqSamples++
+			c.Samples = append(c.Samples, "sequence (agreed with the model at every call): "+seqText(ops))
+		}
 	}
 	return clean
 }
@@ -1035,8 +1043,12 @@ func TestCheck(t *testing.T) {
 		}
 	}
 	sort.Strings(samples)
-	for i := 0; i < len(samples) && i < 3; i++ {
-		run.Sample("transition class (points L=live D=removed+pinned E=end, each with #iterators on it | op@point): " + samples[i])
+	// up to two of each kind (the prefixes sort them apart)
+	for i, n := 0, 0; i < len(samples) && n < 2; i, n = i+1, n+1 {
+		run.Sample(samples[i])
+	}
+	for i, n := len(samples)-1, 0; i >= 2 && n < 2; i, n = i-1, n+1 {
+		run.Sample(samples[i])
 	}
 }
 
